@@ -228,13 +228,18 @@ class DelimSource(Source[Iterable[str]]):
 
         if split_lines:
             for text in filter(None,self._source.read()):
-                lines = text.splitlines()
                 if pending:
-                    lines[0] = pending + lines[0]
+                    text    = pending + text
                     pending = None
-                if text[-1] not in '\r\n':
+                lines = text.splitlines()
+                if text[-1] == '\r':
+                    #the '\n' of a '\r\n' terminator may open the next chunk
+                    pending = lines.pop() + '\r'
+                elif text[-1] != '\n':
                     pending = lines.pop()
                 yield from lines
+            if pending is not None:
+                pending = pending.rstrip('\r')
         else:
             for text in filter(None,self._source.read()):
                 lines = text.split(delim)
